@@ -21,7 +21,7 @@ FLOAT = ["float"]
 EXT_OPS = {  # name -> (ins, outs)
     "H": ([Q], [Q]), "CX": ([Q, Q], [Q, Q]), "Measure": ([Q], [Q, BOOL]), "Rz": ([Q, FLOAT], [Q]),
     "Fan3": ([BOOL], [BOOL, BOOL, BOOL]), "Nop0": ([], []), "Swap": ([BOOL, Q], [Q, BOOL]),
-    "QAlloc": ([], [Q]), "QFree": ([Q], []),
+    "QAlloc": ([], [Q]), "QFree": ([Q], []), "CCX": ([Q, Q, Q], [Q, Q, Q]),
 }
 
 CFG_SHAPES = {
